@@ -53,7 +53,7 @@ def run(ctx):
         perm = list(range(p))
         rng.shuffle(perm)
         shift = np.asarray([rng.choice([-7.5, 2.0, 11.25]) for _ in range(p)])
-        a = rng.choice([0.5, 3.0, 8.0])
+        a = rng.choice([0.5, 3.0, 8.0, 3.0e-5, 2.0e-4])
         scale = float(np.sum(X ** 2)) * max(1, a * a) + float(np.sum(shift ** 2)) * n + n * 50
         Xp, Xs, Xa, Xr = X[:, perm], X + shift, X * a, X[::-1].copy()
         inp0 = {"n": n, "p": p, "X": X.tolist(), "perm": perm, "shift": shift.tolist(), "scale": a}
